@@ -1,0 +1,15 @@
+//go:build verif
+
+package orderedmap
+
+// VerifState exposes the representation (key order and the key set of the
+// underlying Go map) to the verification harness. Only built with -tags verif.
+func (orderedMap *Map[K, V]) VerifState() ([]K, []K) {
+	order := append([]K(nil), orderedMap.order...)
+	recordKeys := make([]K, 0, len(orderedMap.records))
+	for key := range orderedMap.records {
+		recordKeys = append(recordKeys, key)
+	}
+
+	return order, recordKeys
+}
